@@ -92,6 +92,7 @@ Proof.
     match class_of W s with
     | SNode => (set_slot st s (BMod (node_module s))) <| st_has_node := true |>
     | SPass => set_slot st s (BExternal false)
+    | SNpm r => st <| st_npm := st_npm st ++ [{| ni_spec := s; ni_req := r; ni_range := range; ni_dyn := in_dyn |}] |>
     | SBad => set_slot st s (BErr (BBadSpecifier s range))
     | SUrl => queue_load st s range asset in_dyn root attr count
     end).
@@ -99,12 +100,14 @@ Proof.
     - apply queue_load_inv. exact H.
     - eapply PendInv_ext; [| |apply (set_slot_nonpending_inv x st s (BMod (node_module s)) H eq_refl)]; reflexivity.
     - apply set_slot_nonpending_inv; [exact H | reflexivity].
-    - apply set_slot_nonpending_inv; [exact H | reflexivity]. }
+    - apply set_slot_nonpending_inv; [exact H | reflexivity].
+    - eapply PendInv_ext; [| |exact H]; reflexivity. }
   assert (Hproceed' : PendInv x
     (if has_key s (st_redirects st) then set_slot st s (BErr (BLoad s range 1))
      else match class_of W s with
           | SNode => (set_slot st s (BMod (node_module s))) <| st_has_node := true |>
           | SPass => set_slot st s (BExternal false)
+          | SNpm r => st <| st_npm := st_npm st ++ [{| ni_spec := s; ni_req := r; ni_range := range; ni_dyn := in_dyn |}] |>
           | SBad => set_slot st s (BErr (BBadSpecifier s range))
           | SUrl => queue_load st s range asset in_dyn root attr count
           end)).
@@ -342,6 +345,84 @@ Definition no_pending (slots : list (spec * bslot)) : Prop :=
 Lemma init_state_inv : forall W o g, no_pending (bg_slots g) -> PendInv None (init_state W o g).
 Proof. intros W o g Hg s a _ Hl. cbn in Hl. exfalso. exact (Hg s a Hl). Qed.
 
+
+(* ---------- the npm stage only adds finished entries ---------- *)
+Lemma in_set_assoc : forall {V} k (v : V) l k0 v0,
+  In (k0, v0) (set_assoc k v l) -> (k0 = k /\ v0 = v) \/ In (k0, v0) l.
+Proof.
+  intros V k v l. induction l as [|[k' v'] l IH]; intros k0 v0 H; cbn [set_assoc] in H.
+  - destruct H as [H|[]]. inversion H. left. split; reflexivity.
+  - destruct (N.eqb k k').
+    + destruct H as [H|H]; [inversion H; left; split; reflexivity | right; right; exact H].
+    + destruct H as [H|H]; [right; left; exact H|]. apply IH in H. destruct H as [H|H]; [left; exact H | right; right; exact H].
+Qed.
+
+Definition npm_shape (v : bslot) : Prop := (exists s, v = BMod (npm_module s)) \/ (exists s r k, v = BErr (BNpm s r k)).
+
+Lemma npm_main_shape : forall ans items s v, In (s, v) (npm_main ans items) -> npm_shape v.
+Proof.
+  intros ans items. unfold npm_main.
+  assert (G : forall reqs acc, (forall s v, In (s, v) acc -> npm_shape v) ->
+              forall s v, In (s, v) (fold_left (fun acc r => fold_left (fun acc it =>
+                 if N.eqb (ni_req it) r
+                 then set_assoc (ni_spec it) (if N.eqb (npm_code ans r) 1 then BErr (BNpm (ni_spec it) (ni_range it) 0)
+                                              else BMod (npm_module (ni_spec it))) acc
+                 else acc) items acc) reqs acc) -> npm_shape v).
+  { induction reqs as [|r reqs IH]; intros acc Ha; cbn [fold_left]; [exact Ha|].
+    apply IH. clear IH. revert acc Ha. induction items as [|it items IHi]; intros acc Ha; cbn [fold_left]; [exact Ha|].
+    apply IHi. destruct (N.eqb (ni_req it) r); [|exact Ha].
+    intros s v Hin. apply in_set_assoc in Hin. destruct Hin as [[_ ->]|Hin]; [|apply (Ha s v Hin)].
+    destruct (N.eqb (npm_code ans r) 1); [right; eexists _, _, _; reflexivity | left; eexists; reflexivity]. }
+  apply G. intros s v [].
+Qed.
+
+Lemma npm_dynamic_shape : forall ans items acc,
+  (forall s v, In (s, v) acc -> npm_shape v) -> forall s v, In (s, v) (npm_dynamic ans items acc) -> npm_shape v.
+Proof.
+  intros ans items. unfold npm_dynamic. induction items as [|it items IH]; intros acc Ha; cbn [fold_left]; [exact Ha|].
+  apply IH. intros s v Hin. apply in_set_assoc in Hin. destruct Hin as [[_ ->]|Hin]; [|apply (Ha s v Hin)].
+  destruct (npm_code ans (ni_req it)) as [|[p|p|]]; try (left; eexists; reflexivity);
+    try destruct p; try (left; eexists; reflexivity); right; eexists _, _, _; reflexivity.
+Qed.
+
+Lemma npm_resolve_shape : forall W items s v, In (s, v) (no_slots (npm_resolve W items)) -> npm_shape v.
+Proof.
+  intros W items s v. unfold npm_resolve. destruct (w_npm W) as [ans|]; cbn [no_slots]; [|intros []].
+  apply npm_dynamic_shape. intros s0 v0.
+  destruct (match filter (fun it => negb (ni_dyn it)) items, filter ni_dyn items with [], _ :: _ => false | _, _ => true end);
+    [apply npm_main_shape | intros []].
+Qed.
+
+Lemma npm_fill_lookup : forall new slots s v,
+  lookup s (npm_fill slots new) = Some v -> lookup s slots = Some v \/ In (s, v) new.
+Proof.
+  unfold npm_fill. induction new as [|[k x] new IH]; intros slots s v H; cbn [fold_left] in H; [left; exact H|].
+  apply IH in H. destruct H as [H|H]; [|right; right; exact H]. cbn [fst snd] in H.
+  unfold or_insert in H. destruct (lookup k slots) eqn:Ek; [left; exact H|].
+  destruct (N.eq_dec s k) as [->|Hne].
+  - right. left. f_equal. clear -H Ek. induction slots as [|[a b] slots IHs]; cbn [app lookup] in *.
+    + rewrite N.eqb_refl in H. inversion H. reflexivity.
+    + destruct (N.eqb k a); [discriminate | apply IHs; assumption].
+  - left. clear -H Hne. induction slots as [|[a b] slots IHs]; cbn [app lookup] in *.
+    + destruct (N.eqb s k) eqn:E; [apply N.eqb_eq in E; contradiction | discriminate].
+    + destruct (N.eqb s a); [exact H | apply IHs; exact H].
+Qed.
+
+Lemma npm_fill_keeps : forall new slots s v, lookup s slots = Some v -> lookup s (npm_fill slots new) = Some v.
+Proof.
+  unfold npm_fill. induction new as [|[k x] new IH]; intros slots s v H; cbn [fold_left]; [exact H|].
+  apply IH. cbn [fst snd]. unfold or_insert. destruct (lookup k slots); [exact H|].
+  clear -H. induction slots as [|[a b] slots IHs]; cbn [app lookup] in *; [discriminate|].
+  destruct (N.eqb s a); [exact H | apply IHs; exact H].
+Qed.
+
+Lemma npm_fill_no_pending : forall W items slots,
+  no_pending slots -> no_pending (npm_fill slots (no_slots (npm_resolve W items))).
+Proof.
+  intros W items slots H s a Hl. apply npm_fill_lookup in Hl. destruct Hl as [Hl|Hin]; [exact (H s a Hl)|].
+  apply npm_resolve_shape in Hin. destruct Hin as [[s0 E]|[s0 [r [k E]]]]; discriminate.
+Qed.
+
 (* C03: a completed build leaves no entry unfinished *)
 Theorem build_no_pending : forall W o g roots imports g',
   no_pending (bg_slots g) -> build W o g roots imports = Some g' -> no_pending (bg_slots g').
@@ -353,6 +434,7 @@ Proof.
   assert (H2 : PendInv None st2).
   { unfold st2. apply load_imports_inv. apply load_roots_inv. apply init_state_inv. exact Hg. }
   destruct (resolve_pending_inv _ _ _ _ _ H2 HR) as [Hinv Hp].
+  apply npm_fill_no_pending.
   intros s a Hl. specialize (Hinv s a ltac:(discriminate) Hl). rewrite Hp in Hinv. exact Hinv.
 Qed.
 
@@ -376,6 +458,7 @@ Proof.
   assert (H1 : PendInv None st1).
   { unfold st1. apply reload_specs_inv. apply init_state_inv. exact Hg. }
   destruct (resolve_pending_inv _ _ _ _ _ H1 HR) as [Hinv Hp].
+  apply npm_fill_no_pending.
   intros s a Hl. specialize (Hinv s a ltac:(discriminate) Hl). rewrite Hp in Hinv. exact Hinv.
 Qed.
 
@@ -386,7 +469,11 @@ Theorem build_known_roots_identity : forall W o g roots imports,
   build W o g roots imports =
     Some {| bg_kind := bg_kind g; bg_roots := bg_roots g; bg_slots := bg_slots g;
             bg_redirects := bg_redirects g; bg_imports := bg_imports g; bg_has_node := bg_has_node g;
-            bg_calls := []; bg_lock_sets := [] |}.
+            bg_calls := []; bg_lock_sets := [];
+            (* with an npm resolver the builder asks it to resolve the empty set of requirements
+               ("unconditionally do an npm install") and takes its answer for the dependency graph *)
+            bg_npm_calls := match w_npm W with Some _ => [[]] | None => [] end;
+            bg_npm_dep_ok := match w_npm W with Some _ => true | None => bg_npm_dep_ok g end |}.
 Proof.
   intros W o g roots imports Hr Hi. unfold build.
   assert (E1 : filter (fun r => negb (mem r (bg_roots g))) roots = []).
@@ -397,5 +484,6 @@ Proof.
   { unfold spec in *. induction imports as [|p ps IH]; [reflexivity|]. cbn [filter].
     rewrite (Hi p (or_introl eq_refl)). cbn [negb]. apply IH. intros p' H'. apply Hi. right; exact H'. }
   unfold spec in *. rewrite E1, E2. cbn [dedup_keep_first dedup_keep_first_aux load_roots load_imports].
-  unfold build_fuel. cbn. rewrite !app_nil_r. reflexivity.
+  unfold build_fuel. cbn [idle init_state st_pending st_dyn st_deferred resolve_pending Nat.add Nat.mul]. rewrite !app_nil_r.
+  unfold finish, npm_resolve. cbn [init_state st_npm st_slots st_redirects st_has_node st_calls st_lock_sets]. destruct (w_npm W) eqn:E; reflexivity.
 Qed.
